@@ -16,7 +16,8 @@
 (*     value / every word / every leading path / existence) that must find *)
 (*     the document.                                                       *)
 (* TLC decides at class level  OwnContentFindsIt, NoUnproducibleToken,     *)
-(* RenderLexRoundTrip, LowerShortcutSound  for every class sequence x      *)
+(* RenderLexRoundTrip, LowerShortcutSound, DeviationIsExact for every      *)
+(* class sequence x                                                        *)
 (* mapping shape x type x case sensitivity x limits x partial indexing of  *)
 (* the scope, and emits every state as a CASE (expected index tokens, the  *)
 (* probes with their rendering in every admissible quoting style and       *)
@@ -348,9 +349,17 @@ Targets(c) == CASE c.shape = "flat"  -> << <<"Fld", c.typ, c.ms>> >>
                 [] c.shape = "obj"   -> << <<"Ob.Mem", c.typ, c.ms>> >>
                 [] c.shape = "multi" -> << <<"Fld", "text", 0>>, <<"Fld.kw", "keyword", c.ms>>, <<"Fld.pa", "path", c.ms>> >>
 HasInvalid(s) == \E i \in 1..Len(s) : ~AValid(s[i])
-\* DESIGN 7/C11: nothing is asserted for an invalid byte in a case-sensitive keyword/path token (no query can carry it)
-Exempt(typ, c, s) == c.cs /\ typ \in {"keyword", "path"} /\ HasInvalid(s)
-Probe(title, typ, kind, a, dem) == [title |-> title, typ |-> typ, kind |-> kind, a |-> a, lit |-> "", dem |-> dem]
+\* DESIGN 7/C11: nothing is asserted for an invalid byte OF THE DOCUMENT in a case-sensitive keyword/path token (no query can carry it)
+Exempt(typ, c, s) == c.cs /\ typ \in {"keyword", "path"} /\ \E i \in 1..Len(s) : ACls(s[i]) = "iv"
+\* a rune of a VALID document cut in the middle by partial indexing (stray bytes of a non-iv character)
+CutRune(s) == \E i \in 1..Len(s) : ~AValid(s[i]) /\ ACls(s[i]) # "iv"
+WholeRunes(s) == SelectSeq(s, LAMBDA a : AValid(a) \/ ACls(a) = "iv")        \* the prefix without the cut rune
+\* Deviation D1 of the pinned implementation (keyword/path tokenizers cut value[:maxLength] at a BYTE position): in case-sensitive
+\* mode the token ends in a truncated rune that no literal can denote.  The property still demands the hit (dem), TLC shows that the
+\* transcription misses exactly these probes (DeviationIsExact), the driver reports what the real code does.
+Gap(typ, c, s) == c.cs /\ typ \in {"keyword", "path"} /\ CutRune(s) /\ ~Exempt(typ, c, s)
+\* a2: alternative content that satisfies the same demand ("indexed by their prefix": the byte prefix or the whole-rune prefix)
+Probe(title, typ, kind, a, dem) == [title |-> title, typ |-> typ, kind |-> kind, a |-> a, a2 |-> WholeRunes(a), lit |-> "", dem |-> dem]
 ContentProbes(t, c) ==
   LET title == t[1]  typ == t[2]  ms == t[3]
       vlim == IF typ = "text" THEN (IF ms = 0 THEN Big ELSE ms) ELSE (IF ms = 0 THEN c.mt ELSE ms)
@@ -363,54 +372,69 @@ ContentProbes(t, c) ==
                                   [i \in 1..Len(ws) |-> Probe(title, typ, "word", ws[i], TRUE)]
                                   \o (IF NBytes(val) = 0 THEN << Probe(title, typ, "empty", <<>>, FALSE) >> ELSE <<>>)
             [] OTHER           -> <<>>
-ExistsProbe(t) == [title |-> "_exists_", typ |-> "keyword", kind |-> "exists", a |-> <<>>, lit |-> t[1], dem |-> TRUE]
+ExistsProbe(t) == [title |-> "_exists_", typ |-> "keyword", kind |-> "exists", a |-> <<>>, a2 |-> <<>>, lit |-> t[1], dem |-> TRUE]
 Probes(c) == LET T == Targets(c) IN
              Concat([i \in 1..Len(T) |-> ContentProbes(T[i], c) \o <<ExistsProbe(T[i])>>])
 
 StylesFor(p) == IF p.kind = "exists" THEN <<"dq", "sq", "bq", "bare">>
                 ELSE SelectSeq(Styles, LAMBDA s : Admissible(s, p.a))
-\* `_exists_` is a case-sensitive keyword field whatever conf.CaseSensitive says (parseSeqQLFieldFilter)
+AltStyle(style) == IF style = "dqx" THEN "dq" ELSE style
+HasAlt(p) == p.kind # "exists" /\ p.a2 # p.a
 ProbeFinds(p, style, c, idx) ==
+  \* `_exists_` is a case-sensitive keyword field whatever conf.CaseSensitive says (parseSeqQLFieldFilter): the title as it stands
   IF p.kind = "exists" THEN p.lit \in ExistsOf(idx)
-  ELSE QueryFinds(p.typ, Render(style, p.a), c.cs, TokensOf(idx, p.title))
+  ELSE \/ QueryFinds(p.typ, Render(style, p.a), c.cs, TokensOf(idx, p.title))
+       \/ (HasAlt(p) /\ QueryFinds(p.typ, Render(AltStyle(style), p.a2), c.cs, TokensOf(idx, p.title)))
+ProbeGap(p, c) == p.kind # "exists" /\ Gap(p.typ, c, p.a)
 
 \* ---------------------------------------------------------------- the properties
 NoCfg == [shape |-> "none", typ |-> "", cs |-> FALSE, partial |-> FALSE, mt |-> 0, ms |-> 0]
 Active == cfg # NoCfg
 
 \* C11, first sentence: a query made from the document's own content finds it, in every quoting style
-OwnContentFindsIt ==
-  Active => LET idx == Index(cfg)  P == Probes(cfg) IN
-            \A i \in 1..Len(P) : P[i].dem =>
-               LET S == StylesFor(P[i]) IN S # <<>> /\ \A j \in 1..Len(S) : ProbeFinds(P[i], S[j], cfg, idx)
+OwnContentFindsItOn(c, idx, P) ==
+  \A i \in 1..Len(P) : (P[i].dem /\ ~ProbeGap(P[i], c)) =>
+     LET S == StylesFor(P[i]) IN S # <<>> /\ \A j \in 1..Len(S) : ProbeFinds(P[i], S[j], c, idx)
+\* ... except deviation D1, which is exactly: case-sensitive, keyword/path, partial indexing cuts a rune - there NO style finds it
+DeviationIsExactOn(c, idx, P) ==
+  \A i \in 1..Len(P) : ProbeGap(P[i], c) =>
+     /\ P[i].dem /\ c.partial /\ c.cs
+     /\ LET S == StylesFor(P[i]) IN \A j \in 1..Len(S) : ~ProbeFinds(P[i], S[j], c, idx)
 
 \* C11, second sentence: no token that an own-content query cannot produce (and none at all for unmapped fields, skipped values)
-NoUnproducibleToken ==
-  Active => LET idx == Index(cfg)  P == Probes(cfg)  T == Targets(cfg) IN
-            \A i \in 1..Len(idx) :
-               IF idx[i].key = "_exists_" THEN \E j \in 1..Len(T) : T[j][1] = idx[i].lit
-               ELSE /\ \E j \in 1..Len(T) : T[j][1] = idx[i].key
-                    /\ \/ \E j \in 1..Len(P) : /\ P[j].title = idx[i].key /\ P[j].kind # "exists"
-                                               /\ ProbeFinds(P[j], "dq", cfg, <<idx[i]>>)
-                       \/ \E j \in 1..Len(T) : T[j][1] = idx[i].key /\ Exempt(T[j][2], cfg, idx[i].a)
+NoUnproducibleTokenOn(c, idx, P) ==
+  LET T == Targets(c) IN
+  \A i \in 1..Len(idx) :
+     IF idx[i].key = "_exists_" THEN \E j \in 1..Len(T) : T[j][1] = idx[i].lit
+     ELSE /\ \E j \in 1..Len(T) : T[j][1] = idx[i].key
+          /\ \/ \E j \in 1..Len(P) : /\ P[j].title = idx[i].key /\ P[j].kind # "exists"
+                                     /\ ProbeFinds(P[j], "dq", c, <<idx[i]>>)
+             \/ \E j \in 1..Len(T) : T[j][1] = idx[i].key /\ (Exempt(T[j][2], c, idx[i].a) \/ Gap(T[j][2], c, idx[i].a))
 
 \* every admissible style is parsed into the same literals as the plain content (so no style changes the meaning)
-RenderLexRoundTrip ==
-  Active => LET P == Probes(cfg) IN
-            \A i \in 1..Len(P) : P[i].kind # "exists" =>
-               LET S == StylesFor(P[i])
-                   plain == IF P[i].typ = "text" THEN ParseText(P[i].a, cfg.cs) ELSE << ParseKeyword(P[i].a, cfg.cs) >>
-               IN \A j \in 1..Len(S) : QueryLits(P[i].typ, Render(S[j], P[i].a), cfg.cs) = [ok |-> TRUE, lits |-> plain]
+RenderLexRoundTripOn(c, P) ==
+  \A i \in 1..Len(P) : P[i].kind # "exists" =>
+     LET S == StylesFor(P[i])
+         plain == IF P[i].typ = "text" THEN ParseText(P[i].a, c.cs) ELSE << ParseKeyword(P[i].a, c.cs) >>
+     IN \A j \in 1..Len(S) : QueryLits(P[i].typ, Render(S[j], P[i].a), c.cs) = [ok |-> TRUE, lits |-> plain]
 
-LowerShortcutSound ==
-  Active => \A fl \in {cfg.mt, cfg.ms, Big} : fl > 0 =>
-               TextTok(Bytes(val), fl, cfg.mt, cfg.partial, cfg.cs) = TextTokPlain(Bytes(val), fl, cfg.mt, cfg.partial, cfg.cs)
+\* the ASCII / no-upper-case shortcut of the text tokenizer never changes a token
+LowerShortcutSoundOn(c) ==
+  \A fl \in {c.mt, c.ms, Big} : fl > 0 =>
+     TextTok(Bytes(val), fl, c.mt, c.partial, c.cs) = TextTokPlain(Bytes(val), fl, c.mt, c.partial, c.cs)
+
+\* the four invariants by name (cfgs Tokenize_named*.cfg) ...
+OwnContentFindsIt   == Active => OwnContentFindsItOn(cfg, Index(cfg), Probes(cfg))
+NoUnproducibleToken == Active => NoUnproducibleTokenOn(cfg, Index(cfg), Probes(cfg))
+RenderLexRoundTrip  == Active => RenderLexRoundTripOn(cfg, Probes(cfg))
+LowerShortcutSound  == Active => LowerShortcutSoundOn(cfg)
+DeviationIsExact    == Active => DeviationIsExactOn(cfg, Index(cfg), Probes(cfg))
 
 \* ---------------------------------------------------------------- case walk
 LS(b) == IF LimMode = "none" THEN {} ELSE 1..b
 PairsKw(b) == {<<Big, 0>>} \cup {<<l, 0>> : l \in LS(b)} \cup {<<Big, l>> : l \in LS(b)}        \* <<MaxTokenSize, per-field size>>
 PairsText(b) == PairsKw(b) \cup (IF LimMode = "prod" THEN LS(b) \X LS(b) ELSE {})
-PairsObj(b) == {<<Big, 0>>} \cup (IF b >= 2 /\ LimMode # "none" THEN {<<Big, b - 1>>, <<b - 1, 0>>} ELSE {})
+PairsObj(b) == {<<Big, 0>>} \cup (IF b >= 2 /\ LimMode # "none" THEN {<<Big, b - 1>>} ELSE {})    \* flattening is independent of limits
 ValueLim(typ, p) == IF typ = "text" THEN (IF p[2] = 0 THEN Big ELSE p[2]) ELSE (IF p[2] = 0 THEN p[1] ELSE p[2])
 PartialsFor(typ, p, b) == IF ValueLim(typ, p) < b THEN BOOLEAN ELSE {FALSE}
 Mk(shape, typ, cs, pa, p) == [shape |-> shape, typ |-> typ, cs |-> cs, partial |-> pa, mt |-> p[1], ms |-> p[2]]
@@ -452,15 +476,26 @@ ExistsUnits(style, title) == CASE style = "dq" -> <<Meta("\""), Meta(title), Met
                                [] OTHER -> <<Meta(title)>>
 ProbeOut(p, c, idx) ==
   LET S == StylesFor(p) IN
-  [title |-> p.title, kind |-> p.kind, dem |-> p.dem,
+  [title |-> p.title, kind |-> p.kind, dem |-> p.dem, gap |-> ProbeGap(p, c),
    q |-> [j \in 1..Len(S) |-> [s |-> S[j],
                                u |-> IF p.kind = "exists" THEN ExistsUnits(S[j], p.lit) ELSE Render(S[j], p.a),
+                               u2 |-> IF HasAlt(p) THEN Render(AltStyle(S[j]), p.a2) ELSE <<>>,
                                f |-> ProbeFinds(p, S[j], c, idx)]]]
 IdxOut(c, idx) == LET T == Targets(c) IN
-                  [i \in 1..Len(idx) |-> [key |-> idx[i].key, a |-> idx[i].a, lit |-> idx[i].lit,
-                                          ex |-> \E j \in 1..Len(T) : T[j][1] = idx[i].key /\ Exempt(T[j][2], c, idx[i].a)]]
-Emit == ~Active \/
-        LET idx == Index(cfg)  P == Probes(cfg) IN
-        PrintT(<<"CASE", ToJson([val |-> val, cfg |-> cfg, map |-> MappingSeq(cfg), doc |-> DocOf(cfg), idx |-> IdxOut(cfg, idx),
-                                 probes |-> [i \in 1..Len(P) |-> ProbeOut(P[i], cfg, idx)]])>>)
+                  [i \in 1..Len(idx) |-> [key |-> idx[i].key, a |-> idx[i].a, a2 |-> WholeRunes(idx[i].a), lit |-> idx[i].lit,
+                                          ex |-> \E j \in 1..Len(T) : T[j][1] = idx[i].key /\ Exempt(T[j][2], c, idx[i].a),
+                                          gap |-> \E j \in 1..Len(T) : T[j][1] = idx[i].key /\ Gap(T[j][2], c, idx[i].a)]]
+CaseOut(c, idx, P) == [val |-> val, cfg |-> c, map |-> MappingSeq(c), doc |-> DocOf(c), idx |-> IdxOut(c, idx),
+                       probes |-> [i \in 1..Len(P) |-> ProbeOut(P[i], c, idx)]]
+Emit == ~Active \/ LET idx == Index(cfg)  P == Probes(cfg) IN PrintT(<<"CASE", ToJson(CaseOut(cfg, idx, P))>>)
+\* ... and in one pass (index and probes computed once per state): checks the four, names the first one that fails, emits the case
+Named(ok, name) == ok \/ (PrintT(<<"FAILED", ToJson(name)>>) /\ FALSE)
+CheckAndEmit ==
+  ~Active \/ LET idx == Index(cfg)  P == Probes(cfg) IN
+             /\ Named(OwnContentFindsItOn(cfg, idx, P), "OwnContentFindsIt")
+             /\ Named(NoUnproducibleTokenOn(cfg, idx, P), "NoUnproducibleToken")
+             /\ Named(RenderLexRoundTripOn(cfg, P), "RenderLexRoundTrip")
+             /\ Named(LowerShortcutSoundOn(cfg), "LowerShortcutSound")
+             /\ Named(DeviationIsExactOn(cfg, idx, P), "DeviationIsExact")
+             /\ PrintT(<<"CASE", ToJson(CaseOut(cfg, idx, P))>>)
 =============================================================================
